@@ -107,6 +107,9 @@ pub fn keep_filter_layers_positive(tree: &usvg::Tree, ts: tiny_skia::Transform) 
 pub const NEG_OFFSET_WITNESS: &str = r#"<svg xmlns="http://www.w3.org/2000/svg" width="40" height="40"><filter id="f" filterUnits="userSpaceOnUse" x="10" y="-5" width="20" height="20"><feFlood flood-color="red"/></filter><rect x="12" y="0" width="5" height="5" filter="url(#f)"/></svg>"#;
 
 fn compare(s: &mut Search, class: &str, key: &str, a_svg: &str, b_svg: &str, o: &usvg::Options, rng: &mut Rng) {
+    if std::env::var("VERIF_TRACE_CASES").is_ok() {
+        eprintln!("[{:?}] {} {}", std::time::SystemTime::now().duration_since(std::time::UNIX_EPOCH).map(|d| d.as_secs()).unwrap_or(0), class, &key.chars().take(120).collect::<String>());
+    }
     let (Ok(Ok(ta)), Ok(Ok(tb))) = (pan::catch(|| usvg::Tree::from_str(a_svg, o)), pan::catch(|| usvg::Tree::from_str(b_svg, o))) else { return };
     let size = ta.size().to_int_size();
     let mut ts = rand_ts(rng);
@@ -198,6 +201,11 @@ pub fn search(tier: &str, seed: u64, s: &mut Search) {
     // ---- corpus files in their Micro-SVG form
     let nc = if tier == "thorough" { 0 } else { 80 * mult.min(3) };
     for p in crate::corpus::sample(nc, seed) {
+        // a performance test of the corpus (a 9999-px morphology window): quadratic in the layer area, minutes in
+        // this build when the random transform enlarges it; it says nothing about layers
+        if p.ends_with("filters/feMorphology/huge-radius.svg") {
+            continue;
+        }
         let Ok(data) = std::fs::read(&p) else { continue };
         let oo = crate::corpus::opts_for(Some(&p));
         let Ok(Ok(tree)) = pan::catch(|| usvg::Tree::from_data(&data, &oo)) else { continue };
